@@ -6,6 +6,7 @@ import MosnVerif.Model.FrameH2
 import MosnVerif.Model.ReadLoop
 import MosnVerif.Model.ReadLoopSpec
 import MosnVerif.Drive.DispatchCtx
+import MosnVerif.Model.FrameOwn
 /-! driver of C07 (segmentation independence): see `run` for the case kinds. Core Lean only. -/
 namespace MosnVerif.Drive.C07
 open MosnVerif.Model.FramingS MosnVerif.Model.FrameH2 MosnVerif.Gen.FrameConsts
@@ -257,6 +258,55 @@ def rl (netpoll : Bool) (proto stream lens dflt : String) (impl : List String) :
     | _, _ => "E E bad-impl"
   | _, _, _, _, _ => "E E bad-case"
 
+/-! ### kinds `pkt` (decoded content is frame-local) and `h2own` (delivered HTTP/2 messages are owned) -/
+open MosnVerif.Model.FrameOwn in
+/-- `pkt <proto> <stream> <len:tok,…> <chunk lengths> => <tok,…> <residue length> <failed>`: tok of a frame in the case =
+content token of that frame decoded ALONE by the real decoder (fresh connection, nothing behind it); observed = content
+token of every frame the real Dispatch decoded in this chunking.  The model runs `contentStep proto parse` (header stage
+and the view of the payload parser regenerated) with `parse` = the table frame bytes ↦ token: bytes that are not exactly
+one of the frames have no content (a parser that sees more than its frame fails or reads the neighbour). -/
+def pkt (proto stream frames chunks : String) (impl : List String) : String :=
+  let parseFr (e : String) : Option (Nat × String) :=
+    match e.splitOn ":" with
+    | [l, t] => l.toNat?.map (fun n => (n, t))
+    | _ => none
+  match unhex stream, (frames.splitOn ",").mapM parseFr, parseNats chunks, impl with
+  | some s, some frs, some cs, [got, res, fl] =>
+    let table := (splitBy s (frs.map (·.1))).1.zip (frs.map (·.2))
+    let parse : Bytes → Option String := fun w => (table.find? (fun p => p.1 == w)).map (·.2)
+    match contentStep proto parse, res.toNat? with
+    | some d, some rn =>
+      let c := MosnVerif.Model.Framing.run d (chunk s cs)
+      let mtoks := c.out.map (·.2)
+      let itoks := if got == "-" then [] else got.splitOn ","
+      let agree := mtoks == itoks && c.buf.length == rn && flag c.failed == fl
+      let spec := specPkt s.length frs itoks rn (fl != "0")
+      s!"{if agree then "A" else "D"} {if spec then "S" else "V"} {if mtoks.isEmpty then "-" else joinWith "," mtoks} {c.buf.length} {flag c.failed}"
+    | _, _ => "E E bad-proto"
+  | _, _, _, _ => "E E bad-case"
+
+open MosnVerif.Model.FrameOwn in
+/-- `h2own <req|resp> <stream> <message,…> <chunk lengths> => <views at delivery> <views at the end> <failed>`:
+message = `id.headers-token.body-hex.trailers-token` as the generator wrote it; the views are what the receiver reads
+from the header / body / trailer objects it KEPT: when it was handed them, and again after all reads of the case were
+dispatched and the read buffer was rewritten.  Model: under the regenerated copy discipline of handleFrame the kept
+objects hold the message; an aliased body has no predictable content (`?`). -/
+def h2own (dir stream msgs chunks : String) (impl : List String) : String :=
+  match unhex stream, parseNats chunks, impl with
+  | some s, some cs, [atD, atE, fl] =>
+    if cs.sum != s.length then "E E chunks-do-not-cover" else
+    let sent := if msgs == "-" then [] else msgs.splitOn ","
+    let ld := if atD == "-" then [] else atD.splitOn ","
+    let le := if atE == "-" then [] else atE.splitOn ","
+    let pass := if dir == "req" then passServer else passClient
+    let model := match pass with
+      | .copy => sent
+      | .alias => sent.map (fun _ => "?")
+    let agree := ld == sent && le == model && fl == "0"
+    let spec := specOwn sent ld le (fl != "0")
+    s!"{if agree then "A" else "D"} {if spec then "S" else "V"} {if model.isEmpty then "-" else joinWith "," model}"
+  | _, _, _ => "E E bad-case"
+
 def run (caseToks impl : List String) : String :=
   match caseToks with
   | ["seg", proto, stream, lens, chunks] => seg proto stream lens chunks impl
@@ -267,6 +317,8 @@ def run (caseToks impl : List String) : String :=
   | ["h2cuts", stream, lens] => h2cuts stream lens impl
   | ["rl", proto, stream, lens, dflt, _script] => rl false proto stream lens dflt impl
   | ["rlnp", proto, stream, lens, dflt, _script] => rl true proto stream lens dflt impl
+  | ["pkt", proto, stream, frames, chunks] => pkt proto stream frames chunks impl
+  | ["h2own", dir, stream, msgs, chunks] => h2own dir stream msgs chunks impl
   | ["ctx", proto, _stream, frames, chunks] => MosnVerif.Drive.DispatchCtx.run proto frames chunks impl
   | _ => "E E unknown-kind"
 
